@@ -207,6 +207,8 @@ class SE:
             return cont(st, ('module', v[1] + '.' + name))
         if k != 'ref':
             raise Unsupported('attribute %s of %s' % (name, k))
+        if hasattr(self.spec, 'getattr_hook'):
+            if self.spec.getattr_hook(self, st, v, name, cont) is not NotImplemented: return
         r = v[1]
         providers = []
         for cl in IR_CLASSES:
@@ -354,6 +356,7 @@ class SE:
                 return cont(st, ('list', t, None))
             return self.evs(st, e.elts, lambda s, vs: cont(s, ('tuple', vs)))
         if isinstance(e, ast.Dict) and not e.keys:
+            if hasattr(self.spec, 'new_dict'): return cont(st, self.spec.new_dict(self, st))
             return cont(st, ('dict_empty',))
         if isinstance(e, ast.Set):
             return self.evs(st, e.elts, lambda s, vs: cont(s, ('constset', vs)))
@@ -418,6 +421,8 @@ class SE:
                 return fin(st, self.list_contains_eq(st, b[1], a[1]))
             if b[0] == 'data' or (b[0] == 'ref'):
                 return self.contains_data(st, b, a, fin)
+            if b[0] == 'hdict':
+                return fin(st, st.heap['dk'][b[1]][self.spec.dict_key(self, st, a)])
             if b[0] == 'idset':
                 if a[0] != 'id': return fin(st, BoolVal(False))
                 return fin(st, self.ctx.cnt(b[1], a[1]) > 0)
@@ -449,8 +454,20 @@ class SE:
         if v[0] == 'str': return self.spec.key_const(self, v[1])
         raise Unsupported('dictionary key of kind %s' % v[0])
 
+    def hdict_method(self, st, recv, name, args, cont):
+        d = recv[1]; h = st.heap
+        if name == 'get':
+            k = self.spec.dict_key(self, st, args[0]); dflt = args[1] if len(args) > 1 else self.none()
+            if dflt[0] != 'ref': raise Unsupported('dict.get default')
+            return cont(st, R(self.name_term(st, If(h['dk'][d][k], h['dv'][d][k], dflt[1]))))
+        raise Unsupported('dict.%s on a heap dictionary' % name)
+
     def getitem(self, st, cv, i, cont):
         c = self.ctx
+        if cv[0] == 'hdict':
+            k = self.spec.dict_key(self, st, i); d = cv[1]
+            return self.branch(st, st.heap['dk'][d][k], lambda s: cont(s, self.spec.dict_value(self, s, s.heap['dv'][d][k], cv)),
+                               lambda s: self.exit(s, 'KeyError'))
         if cv[0] == 'odict':
             if i[0] != 'ref': return self.exit(st, 'KeyError')
             ok = st.heap['okeys'][cv[1]][i[1]]
@@ -530,7 +547,10 @@ class SE:
             fi = self.ct.find_any(recv[1], name)
             if fi is None: raise Unsupported('method %s of %s' % (name, recv[1]))
             return self.call_fn(st, fi, ([] if fi.kind == 'static' else [recv]) + args, cont, kw)
+        if k == 'hdict': return self.hdict_method(st, recv, name, args, cont)
         if k != 'ref': raise Unsupported('method %s on %s' % (name, k))
+        if hasattr(self.spec, 'method_hook'):
+            if self.spec.method_hook(self, st, recv, name, args, kw, cont) is not NotImplemented: return
         if name in ('startswith', 'endswith', 'split', 'lower', 'upper', 'format'):
             # string methods on a data value (names are opaque values): uninterpreted, deterministic in the receiver
             return cont(st, self.spec.string_method(self, st, recv, name, args))
@@ -807,6 +827,12 @@ class SE:
 
     def setitem(self, st, cv, i, v, nxt):
         c = self.ctx
+        if cv[0] == 'hdict':
+            k = self.spec.dict_key(self, st, i); d = cv[1]; h = st.heap
+            val = v[1] if v[0] in ('ref', 'hdict') else self.as_ref(st, v)
+            h['dk'] = Store(h['dk'], d, Store(h['dk'][d], k, True))
+            h['dv'] = Store(h['dv'], d, Store(h['dv'][d], k, val))
+            return nxt(st)
         if cv[0] == 'odict':
             if i[0] != 'ref' or v[0] != 'ref': raise Unsupported('Instance._pins[%s] = %s' % (i[0], v[0]))
             inst = cv[1]
@@ -822,6 +848,11 @@ class SE:
         raise Unsupported('subscript store on %s' % cv[0])
 
     def delitem(self, st, cv, i, nxt):
+        if cv[0] == 'hdict':
+            k = self.spec.dict_key(self, st, i); d = cv[1]
+            def ok(s):
+                s.heap['dk'] = Store(s.heap['dk'], d, Store(s.heap['dk'][d], k, False)); nxt(s)
+            return self.branch(st, st.heap['dk'][d][k], ok, lambda s: self.exit(s, 'KeyError'))
         if cv[0] == 'odict':
             if i[0] != 'ref': return self.exit(st, 'KeyError')
             inst = cv[1]
